@@ -30,8 +30,8 @@ fn main() {
             }
         }
     }
-    for (name, ops, init) in c02_corpus::vm_programs() {
-        let env = util::ProgEnv::basic(util::Cost::Const(1), 100_000);
+    for (name, ops, init, envk) in c02_corpus::vm_programs() {
+        let env = util::ProgEnv::named(envk, util::Cost::Const(1), 100_000);
         let h = util::Holey { ops: Arc::new(ops.iter().cloned().map(Some).collect()) };
         for (k, pool) in &pools {
             for rep in 0..3 {
